@@ -108,7 +108,7 @@ func genC11(rt *rapid.T) C11Case {
 		c.DB = genDB(rt, 12)
 		nq := rapid.IntRange(1, 3).Draw(rt, "nq")
 		for i := 0; i < nq; i++ {
-			c.Queries = append(c.Queries, genQuery(rt, 3))
+			c.Queries = append(c.Queries, genQuery(rt, rapid.SampledFrom([]int{3, 3, 3, 12}).Draw(rt, "qmax")))
 		}
 		c.Options = []Opts{genOpts(rt)}
 		if rapid.Bool().Draw(rt, "twoopts") {
